@@ -443,6 +443,10 @@ class Exec:
                 if isinstance(base, Opaque):
                     return self.opaque_field(base, vname, p[2], p[3], st)
                 raise NotEncoded(f'downcast field on {base!r}')
+            if isinstance(b, Agg) and b.kind == 'struct' and b.name == 'Box' and len(b.fields) == 1 and p[2] == 0 and 'Unique<' in str(p[3]):
+                # moving out of a Box (`*b`): MIR reads the pointer field `(b.0: Unique<T>).0: NonNull<T>` and transmutes it; our Box is the boxed value itself
+                f2, p2 = self.resolve_place(st, fid, p[1])
+                return Agg('struct', 'Unique', None, [Agg('struct', 'NonNull', None, [Ref(f2, ('field', p2, 0, '?'))])])
             if isinstance(b, Agg):
                 return self._fld(b, p[2], p[3], st)
             if isinstance(b, Opaque):
@@ -916,7 +920,7 @@ class Exec:
                 return Opaque(rv[2], v.what, v.id, v.over) if isinstance(v, Opaque) else v     # pointer-to-pointer transmute
             if kind.startswith('Transmute') and isinstance(v, Agg) and v.name == 'NonNull' and len(v.fields) == 1 and isinstance(v.fields[0], Ref) and ('*const' in rv[2] or '*mut' in rv[2]):
                 return v.fields[0]          # NonNull<T> -> *const T: the pointer itself (how MIR dereferences a Box)
-            raise NotEncoded(f'cast {kind}')
+            raise NotEncoded(f'cast {kind} of {v!r} to {rv[2]}')
         if k == 'agg':
             return self.aggregate(st, fid, rv, dest_ty)
         if k == 'closure':
@@ -1474,6 +1478,14 @@ class Exec:
                 if hdr is None:
                     continue
                 h_trait, h_self, gens = hdr
+                if h_trait is not None and h_trait.endswith('prost::Enumeration'):
+                    # #[derive(::prost::Enumeration)] on a field-less enum E generates `impl From<E> for i32` and `impl TryFrom<i32> for E` under one span
+                    full = name.split('<impl')[0] + h_self
+                    same = lambda t: t.strip() == full or full.endswith('::' + t.strip()) or t.strip().endswith('::' + full)
+                    if trait is not None and ((meth == 'from' and self_ty.strip() == 'i32' and base_type(trait) == 'From' and type_args(trait) and same(type_args(trait)[0]))
+                                              or (meth == 'try_from' and base_type(trait) == 'TryFrom' and type_args(trait) == ['i32'] and same(self_ty))):
+                        out += [(f, None) for f in prog.funcs_named(name)]
+                    continue
                 subst = {}
                 def unify(h, c):
                     h, c = h.strip(), c.strip()
@@ -1530,6 +1542,14 @@ class Exec:
             conc = [fs for fs in out if not fs[1]]
             if len(conc) == 1:
                 out = conc
+        if len(out) > 1 and trait is not None and meth in ('from', 'try_from', 'into', 'try_into') and len(type_args(trait)) == 1:
+            # same type NAME in several modules (ast::Var / models::Var / api Var): the body whose MIR signature spells the callee's types
+            nrm = lambda t: re.sub(r"'\w+ ", '', t).replace(' ', '')
+            src_ty, dst_ty = (type_args(trait)[0], self_ty) if meth in ('from', 'try_from') else (self_ty, type_args(trait)[0])
+            sig = [fs for fs in out if len(fs[0].args) == 1 and nrm(fs[0].args[0][1]).endswith(nrm(src_ty).lstrip('&')) and nrm(fs[0].args[0][1]).startswith('&') == nrm(src_ty).startswith('&')
+                   and (nrm(fs[0].ret) == nrm(dst_ty) or nrm(fs[0].ret).startswith('Result<' + nrm(dst_ty) + ',') or nrm(fs[0].ret).endswith('::' + nrm(dst_ty)))]
+            if len(sig) == 1:
+                out = sig
         if len(out) == 1:
             f0, sub0 = out[0]
             tf = self.turbofish_subst(callee, f0, method=True)
@@ -1590,10 +1610,19 @@ class Exec:
         r = None
         try:
             root = self.src_root
-            src = open(f'{root}/{file}').read().split('\n')
+            src = open(file if file.startswith('/') else f'{root}/{file}').read().split('\n')      # absolute: generated code in the OUT_DIR of the dump build
             txt = ' '.join(src[line - 1:line + 8]).strip()
             m = re.match(r'^(?:unsafe )?impl\b', txt)
-            if not m and col is not None and 'derive' in src[line - 1]:
+            in_derive = 'derive' in src[line - 1]
+            if not in_derive and col is not None:
+                # a #[derive( ... )] list spread over several lines (rustfmt-ed generated code)
+                for k in range(line - 2, max(line - 22, -1), -1):
+                    if ')]' in src[k]:
+                        break
+                    if '#[derive(' in src[k]:
+                        in_derive = True
+                        break
+            if not m and col is not None and in_derive:
                 # a derive-generated impl: the span covers the trait name inside #[derive(..)]; Self is the item that follows
                 trait = src[line - 1][col[0] - 1:col[1] - 1].strip()
                 for l2 in src[line:line + 12]:
